@@ -222,6 +222,8 @@ class SeqMixin:
             if idx in obj.enum_members:
                 return obj.enum_members[idx]
             py_raise('KeyError', idx)
+        if isinstance(obj, ClassModel) and not obj.is_enum:
+            return obj   # Generic[T] style subscription
         if isinstance(obj, str) and isinstance(idx, int):
             return obj[idx]
         r = self.ext_getitem(obj, idx)
